@@ -110,7 +110,7 @@ func main() {
 			if len(km.RenameNotes) > 0 {
 				r.Extra["renamed_functions_recovered"] = km.RenameNotes
 				for _, n := range km.RenameNotes {
-					fmt.Println("NOTE recorded name found under a new name (reported under the recorded one):", n)
+					fmt.Println("NOTE resolved against the recorded tree (reported under the recorded name):", n)
 				}
 			}
 		}
